@@ -205,4 +205,9 @@ def adapt(c, m: dict):
         requires_assumed={rx(k): v for k, v in c.requires_assumed.items()},
         loops=loops, modifies=[rename_path(x, m) for x in c.modifies],
         witness={rx(k): {vk: rx(vv) for vk, vv in v.items()} for k, v in c.witness.items()},
+        opaque=[m.get(n, n) for n in c.opaque],
+        local_asserts={m.get(k, k): rx(v) for k, v in c.local_asserts.items()},
+        opaque_loops={k: {**v, "via": m.get(v["via"], v["via"]), "over": m.get(v["over"], v["over"])} for k, v in c.opaque_loops.items()},
+        returns_same={rx(k): m.get(v, v) for k, v in c.returns_same.items()},
+        alias={m.get(k, k): rename_path(v, m) for k, v in c.alias.items()},
     )
